@@ -16,7 +16,7 @@ use std::sync::atomic::{AtomicBool, Ordering};
 use std::sync::{Arc, Mutex};
 use std::time::Duration;
 
-fn provider_cfg(ep: &str) -> OpenResponsesConfig {
+pub(super) fn provider_cfg(ep: &str) -> OpenResponsesConfig {
     OpenResponsesConfig {
         endpoint: ep.to_string(),
         api_key: None,
@@ -45,22 +45,22 @@ fn text_provider(extra_event: Option<String>) -> Provider {
 }
 
 #[derive(Clone)]
-struct Live {
-    frames: Arc<Mutex<Vec<Value>>>,
-    lagged: Arc<AtomicBool>,
+pub(super) struct Live {
+    pub(super) frames: Arc<Mutex<Vec<Value>>>,
+    pub(super) lagged: Arc<AtomicBool>,
 }
 
 impl Live {
-    fn new() -> Live {
+    pub(super) fn new() -> Live {
         Live { frames: Arc::new(Mutex::new(Vec::new())), lagged: Arc::new(AtomicBool::new(false)) }
     }
-    fn take(&self) -> Vec<Value> {
+    pub(super) fn take(&self) -> Vec<Value> {
         self.frames.lock().unwrap().clone()
     }
 }
 
 /// Drain a broadcast receiver forever (until closed / aborted) into `live` as wire values.
-fn drain(rt: &tokio::runtime::Runtime, mut rx: tokio::sync::broadcast::Receiver<Event>, live: Live) -> tokio::task::JoinHandle<()> {
+pub(super) fn drain(rt: &tokio::runtime::Runtime, mut rx: tokio::sync::broadcast::Receiver<Event>, live: Live) -> tokio::task::JoinHandle<()> {
     rt.spawn(async move {
         loop {
             match rx.recv().await {
@@ -107,7 +107,7 @@ fn session_input(rng: &mut Rng, n: u64, provider: bool) -> String {
     }
 }
 
-async fn read_sse_until(
+pub(super) async fn read_sse_until(
     rd: &mut crate::fixture::SseReader,
     out: &mut Vec<Value>,
     is_last: impl Fn(&Value) -> bool,
@@ -140,7 +140,7 @@ fn is_session_end(v: &Value) -> bool {
     v.get("type").and_then(|x| x.as_str()) == Some("session_ended")
 }
 
-fn is_task_end(v: &Value) -> bool {
+pub(super) fn is_task_end(v: &Value) -> bool {
     v.get("type").and_then(|x| x.as_str()) == Some("tool_task_status")
         && matches!(v.get("status").and_then(|x| x.as_str()), Some("exited") | Some("failed") | Some("cancelled"))
 }
@@ -177,7 +177,28 @@ pub fn one_history(cfg: &Cfg, r: &mut Report, rt: &tokio::runtime::Runtime, rng:
         );
     }
     let with_provider = rng.chance(1, 3);
-    let provider = if with_provider { Some(text_provider(None)) } else { None };
+    // seeded extra dimension (own random lane, the history itself is unchanged): the provider's stream carries one
+    // event whose JSON is nested D levels, D drawn around the readers' and rip's own limits or from the whole range
+    let deep_extra: Option<(usize, String)> = if with_provider {
+        let mut drng = cfg.case_rng(2_000_000 + idx);
+        if drng.bool() {
+            let d = if drng.bool() { 96 + drng.usize(36) } else { 2 + drng.usize(139) };
+            let shape = *drng.pick(&[super::depth::Shape::Arrays, super::depth::Shape::Objects, super::depth::Shape::Mixed]);
+            let n = super::depth::nest(shape, d - 1, &mut drng);
+            Some((d, format!(
+                "{{\"type\":\"response.output_text.delta\",\"sequence_number\":1,\"item_id\":\"m\",\"output_index\":0,\"content_index\":0,\"delta\":\"d\",\"logprobs\":[],\"deep\":{n}}}"
+            )))
+        } else {
+            None
+        }
+    } else {
+        None
+    };
+    if let Some((d, _)) = &deep_extra {
+        r.count("b_histories_with_deep_provider_event", 1);
+        r.distinct_str(&format!("history_deep_provider_event|{d}"));
+    }
+    let provider = if with_provider { Some(text_provider(deep_extra.as_ref().map(|x| x.1.clone()))) } else { None };
     let pcfg = provider.as_ref().map(|p| provider_cfg(&p.endpoint()));
     let store = Store::new("c03");
     let threads = 1 + rng.usize(4);
@@ -392,6 +413,9 @@ pub fn one_history(cfg: &Cfg, r: &mut Report, rt: &tokio::runtime::Runtime, rng:
         let log_path = store.log_path();
         let data = store.data.clone();
         let need: Vec<(String, bool, &'static str)> = got.iter().map(|w| (w.id.clone(), w.linked, w.kind)).collect();
+        // a snapshot file is "there" when it reads as a JSON array or, failing that, when it looks like a finished array
+        // and has not changed for a while (an unreadable snapshot is for the oracle to judge, not for the watchdog)
+        let mut settled: std::collections::HashMap<String, (usize, std::time::Instant)> = std::collections::HashMap::new();
         let quiet = rt.block_on(async {
             wait_for(Duration::from_secs(30), || {
                 let bytes = std::fs::read(&log_path).unwrap_or_default();
@@ -401,11 +425,15 @@ pub fn one_history(cfg: &Cfg, r: &mut Report, rt: &tokio::runtime::Runtime, rng:
                         return None;
                     }
                     let dir = if *kind == "task" { "task_snapshots" } else { "snapshots" };
-                    let ok = std::fs::read(data.join(dir).join(format!("{id}.json")))
-                        .ok()
-                        .and_then(|b| serde_json::from_slice::<Value>(&b).ok())
-                        .map(|v| v.is_array())
-                        .unwrap_or(false);
+                    let b = std::fs::read(data.join(dir).join(format!("{id}.json"))).unwrap_or_default();
+                    let mut ok = serde_json::from_slice::<Value>(&b).ok().map(|v| v.is_array()).unwrap_or(false);
+                    if !ok && b.first() == Some(&b'[') && b.iter().rev().find(|c| !c.is_ascii_whitespace()) == Some(&b']') {
+                        let e = settled.entry(id.clone()).or_insert((b.len(), std::time::Instant::now()));
+                        if e.0 != b.len() {
+                            *e = (b.len(), std::time::Instant::now());
+                        }
+                        ok = e.1.elapsed() > Duration::from_millis(400);
+                    }
                     if !ok {
                         return None;
                     }
@@ -476,7 +504,10 @@ pub fn one_history(cfg: &Cfg, r: &mut Report, rt: &tokio::runtime::Runtime, rng:
     let log = rip_log::EventLog::new(store.log_path()).ok();
     for w in &watched {
         let in_log: Vec<Value> = truth::stream(&frames, w.kind, &w.id).iter().map(|f| f.v.clone()).collect();
-        let wit = |extra: Value| json!({"part": "B", "case": idx, "stream_kind": w.kind, "attach": format!("{:?}", w.attach), "detail": extra});
+        let wit = |extra: Value| {
+            json!({"part": "B", "case": idx, "stream_kind": w.kind, "attach": format!("{:?}", w.attach),
+                   "provider_event_nesting": deep_extra.as_ref().map(|x| x.0), "detail": extra})
+        };
         r.count("b_streams_compared", 1);
         r.count(&format!("b_{}_streams_{:?}", w.kind, w.attach), 1);
         r.count("b_live_frames_compared", w.live.len() as u64);
@@ -686,7 +717,7 @@ fn directed_concurrent_snapshots(r: &mut Report, rt: &tokio::runtime::Runtime, r
     }
 }
 
-fn compare(
+pub(super) fn compare(
     r: &mut Report,
     kind: &str,
     a_name: &str,
@@ -721,7 +752,7 @@ fn compare(
 
 /// live == log filtered == sidecar file == replay_events() == thread SSE replay, per continuity.
 #[allow(clippy::too_many_arguments)]
-fn judge_continuities(
+pub(super) fn judge_continuities(
     r: &mut Report,
     rt: &tokio::runtime::Runtime,
     store: &Store,
